@@ -1,6 +1,6 @@
 // script group binary: `script factgen ...` and `script corr ...` (property C02).
 //
-// The binary is also its own helper program: `script __envdump` prints os.Environ(), one
+// The binary is also its own helper program: `script __envdump` prints its environment strings (/proc/self/environ, else os.Environ()), one
 // hex-encoded entry per line; test scripts run it with `exec` to observe the child environment.
 package main
 
@@ -8,6 +8,7 @@ import (
 	"encoding/hex"
 	"fmt"
 	"os"
+	"strings"
 
 	"verif/harness/internal/corr"
 	"verif/harness/internal/fact"
@@ -17,7 +18,16 @@ const envDumpArg = "__envdump"
 
 func main() {
 	if len(os.Args) >= 2 && os.Args[1] == envDumpArg {
-		for _, kv := range os.Environ() {
+		// the strings exactly as handed over by execve: the Go runtime's os.Environ() drops
+		// later entries whose text before the first '=' repeats (syscall.copyenv)
+		entries := os.Environ()
+		if raw, err := os.ReadFile("/proc/self/environ"); err == nil {
+			entries = strings.Split(strings.TrimSuffix(string(raw), "\x00"), "\x00")
+			if len(raw) == 0 {
+				entries = nil
+			}
+		}
+		for _, kv := range entries {
 			if kv == "" {
 				fmt.Println("-")
 			} else {
